@@ -697,6 +697,14 @@ func (ev *Evaluator) instr(env map[ssa.Value]Val, in ssa.Value) (Val, error) {
 		if in.Low == nil && in.High == nil {
 			return Term{Fn: "slice", Args: []Val{x}}, nil
 		}
+		// x[:len(x)] and x[0:len(x)] (with or without a capacity bound) hold the elements of x: as contents, x itself
+		if _, isSlice := in.X.Type().Underlying().(*types.Slice); isSlice || isStringType(in.X.Type()) {
+			if lo, hi := b(in.Low), b(in.High); (lo == "" || lo == "0") && hi == "len("+x.String()+")" {
+				if _, opaque := x.(Sym); opaque {
+					return x, nil
+				}
+			}
+		}
 		return Term{Fn: "slice[" + b(in.Low) + ":" + b(in.High) + "]", Args: []Val{x}}, nil
 	case *ssa.IndexAddr:
 		x, err := ev.val(env, in.X)
@@ -1332,4 +1340,9 @@ func rebaseSlice(x, idx Val) (Val, Val) {
 		x, idx = t.Args[0], Const{constant.MakeInt64(lo + k)}
 	}
 	return x, idx
+}
+
+func isStringType(t types.Type) bool {
+	b, ok := t.Underlying().(*types.Basic)
+	return ok && b.Info()&types.IsString != 0
 }
